@@ -25,13 +25,13 @@ from core import coqrun
 ID = 'C08'
 PROPERTY_FILE = 'C08/Property.v'
 PROPERTY_FILES = ['C08/Property.v', 'C08/Examples.v', 'C08/PropertyCore.v', 'C08/SnapshotProperty.v', 'C08/VersionProperty.v',
-                  'C08/HeaderProperty.v', 'C08/FloatProperty.v']
+                  'C08/HeaderProperty.v', 'C08/HistoryProperty.v', 'C08/FloatProperty.v']
 # hand-written obligations that do not depend on Gen_Layout.v: still checked when the translator fails closed
 PROPERTY_FILES_NO_GEN = ['C08/PropertyCore.v', 'C08/SnapshotProperty.v', 'C08/VersionProperty.v', 'C08/HeaderProperty.v',
-                         'C08/FloatProperty.v']
+                         'C08/HistoryProperty.v', 'C08/FloatProperty.v']
 LEVEL = 'proof'
 # the integer/byte-level theorems are closed; only the real-number resolution theorems (Flocq) use the reals' axioms
-ALLOWED_AXIOMS = {'C08/Property.v': (), 'C08/Examples.v': (), 'C08/PropertyCore.v': (), 'C08/SnapshotProperty.v': (), 'C08/VersionProperty.v': (), 'C08/HeaderProperty.v': (),
+ALLOWED_AXIOMS = {'C08/Property.v': (), 'C08/Examples.v': (), 'C08/PropertyCore.v': (), 'C08/SnapshotProperty.v': (), 'C08/VersionProperty.v': (), 'C08/HeaderProperty.v': (), 'C08/HistoryProperty.v': (),
                   'C08/FloatProperty.v': coqrun.REAL_AXIOMS}
 TRUSTED_BASE = [
     'coq/C08/FwLayout.v: hand-written transcription of the firmware packed structs, sign conventions and type-byte '
@@ -244,6 +244,24 @@ def _same(a, b):
 #   answer v    the firmware's protocol-version answer is delivered to PlatformService._platform_callback
 #   disconnect  cf.disconnected callbacks fire (what close_link / a lost link does)
 #   call        one command method; it must be encoded for the version in force at that moment
+def rig_new_objects():
+    """fresh Commander / HighLevelCommander / Localization / Extpos / LoPoAnchor on the Crazyflie: every history starts
+    from newly constructed objects, so a failing history is a self-contained witness"""
+    from cflib.crazyflie.commander import Commander
+    from cflib.crazyflie.extpos import Extpos
+    from cflib.crazyflie.high_level_commander import HighLevelCommander
+    from cflib.crazyflie.localization import Localization
+    from lpslib.lopoanchor import LoPoAnchor
+    cf, link, _ = _rig()
+    for cb in [cb for cb in cf.incoming.cb if getattr(cb.callback, '__self__', None) is cf.loc]:
+        cf.incoming.cb.remove(cb)
+    cf.commander = Commander(cf)
+    cf.high_level_commander = HighLevelCommander(cf)
+    cf.loc = Localization(cf)
+    cf.extpos = Extpos(cf)
+    _state['rig'] = (cf, link, LoPoAnchor(cf))
+
+
 def rig_connect():
     cf, link, _ = _rig()
     link.transmit(0)
@@ -412,11 +430,42 @@ def back_to_back_sessions():
     return out
 
 
+def hl_history_sessions():
+    """call histories on ONE HighLevelCommander: define_trajectory with every type x start_trajectory with every
+    relative/reversed combination and several time scales, same and different ids, take-off / go-to / land in between:
+    every packet must decode to the arguments of ITS OWN call"""
+    def call(cmd, args):
+        return {'op': 'call', 'case': {'cmd': cmd, 'ver': None, 'xm': False, 'args': list(args)}, 'lag': 0}
+    out = []
+    for ver in (9, 7):
+        for ty in (0, 1, 2, 255):
+            for other in (False, True):
+                steps = [{'op': 'connect'}, {'op': 'answer', 'ver': ver},
+                         call('CHlDefineTraj', [3, 0, 2, ty]), call('CHlTakeoff', [1.0, 2.0, 0, 0.0])]
+                if other:
+                    steps.append(call('CHlDefineTraj', [4, 64, 5, 1 - ty if ty in (0, 1) else 1]))
+                k = 0
+                for rel in (False, True):
+                    for rev in (False, True):
+                        for ts in (1.0, 2.0, 0.5, -1.0):
+                            k += 1
+                            steps.append(call('CHlStartTraj', [3 if (k % 3 or not other) else 4, ts, rel, rev, k % 2]))
+                            if k % 5 == 0:
+                                steps.append(call('CHlGoTo', [1.0, 2.0, 3.0, 0.5, 2.0, rel, rev, 0]))
+                            if k % 7 == 0:
+                                steps.append(call('CHlDefineTraj', [3, 8, 1, ty]))
+                steps += [call('CHlLand', [0.0, 2.0, 0, None]), call('CHlStartTraj', [3, 3.0, True, True, 0]),
+                          call('CHlStop', [0]), {'op': 'disconnect'}]
+                out.append(steps)
+    return out
+
+
 def run_sessions(sessions):
     """execute every history; each call step gets case['ver'] = version in force and case['out'] = outcome"""
     n = 0
     link = _rig()[1]
     for steps in sessions:
+        rig_new_objects()
         pending = []
 
         def resolve(idx):
@@ -495,6 +544,7 @@ def replay_history(hist):
     """run a JSON history on the rig (after a disconnect, so that nothing of an earlier history is left); judge the
     marked call (the last one if none is marked) on what the radio transmitted for it"""
     rig_disconnect()
+    rig_new_objects()
     link = _rig()[1]
     calls = []
     for st in hist:
@@ -1263,6 +1313,10 @@ def gen_case(rng, cmd, typed=True):
             args.append([rng.randrange(256) for _ in range(n)])
         else:
             args.append(gen_typed(rng, k, typed))
+    if cmd in ('CHlDefineTraj', 'CHlStartTraj') and typed and rng.random() < 0.7:
+        args[0] = rng.choice([1, 2, 3])                 # few ids: define / start of the same id meet in one session
+        if cmd == 'CHlDefineTraj':
+            args[3] = rng.choice([0, 1, 1])
     ver = rng.choice([-1, 0, 3, 6, 7, 7, 8, 8, 8, 9, 9, 9, 10, 11, 255])
     xm = rng.random() < 0.4
     return {'cmd': cmd, 'ver': ver, 'xm': xm, 'args': args}
@@ -1441,7 +1495,7 @@ def tie(ctx):
     for i, c in enumerate(cases):
         c['kw'], c['omit'] = (i % 7 == 3), (i % 5 == 1)
     # session histories: the same objects throughout, the version changes only through connect / answer / disconnect
-    sessions = version_race_sessions() + back_to_back_sessions() + platform_traffic_sessions() + build_sessions(cases[:n_focus], ctx.rng, keep_ver=True) \
+    sessions = version_race_sessions() + back_to_back_sessions() + platform_traffic_sessions() + hl_history_sessions() + build_sessions(cases[:n_focus], ctx.rng, keep_ver=True) \
         + build_sessions(cases[n_focus:], ctx.rng)
     run_sessions(sessions)
     cases, owner = [], {}
@@ -1590,7 +1644,7 @@ def oracle(ctx, deep=False):
             flat.append((i < n_focus, d))
     foc = [d for f, d in flat if f]
     rnd = [d for f, d in flat if not f]
-    sessions = version_race_sessions() + back_to_back_sessions() + platform_traffic_sessions() + build_sessions(foc, rng, keep_ver=True) + build_sessions(rnd, rng)
+    sessions = version_race_sessions() + back_to_back_sessions() + platform_traffic_sessions() + hl_history_sessions() + build_sessions(foc, rng, keep_ver=True) + build_sessions(rnd, rng)
     n += run_sessions(sessions)
     for steps in sessions:
         for st in steps:
